@@ -3,6 +3,7 @@ package c11
 import (
 	"archive/tar"
 	"bytes"
+	"fmt"
 	"io"
 	"time"
 )
@@ -38,7 +39,7 @@ type member struct {
 // findSegments does not emit a segment for.
 func kindOf(tf byte) (byte, bool) {
 	switch tf {
-	case tar.TypeReg, tar.TypeCont, tar.TypeGNUSparse:
+	case tar.TypeReg, 0, tar.TypeCont, tar.TypeGNUSparse:
 		return 'r', true
 	case tar.TypeDir:
 		return 'd', true
@@ -119,13 +120,13 @@ func decodeArchive(b []byte) ([]member, error) {
 			}
 		}
 		if h.Mode < 0 || h.Size < 0 {
-			return nil, errLayout
+			return nil, fmt.Errorf("negative mode or size: %w", errLayout)
 		}
 		out = append(out, member{Kind: k, Name: h.Name, Link: h.Linkname, Data: data,
 			HSize: h.Size, Mode: h.Mode, MTimeS: h.ModTime.Unix(), MTimeN: h.ModTime.Nanosecond()})
 	}
 	if len(spans) != len(out) {
-		return nil, errLayout
+		return nil, fmt.Errorf("layout has %d entries, the reader %d: %w", len(spans), len(out), errLayout)
 	}
 	for i := range out {
 		out[i].Seg = spans[i].size
